@@ -106,10 +106,10 @@ func checkC02(c *Ctx) {
 		}
 	}
 	micWrappers(c, "R4.wrappers", false)
-	c02WrappersHook(c)
+	flowC02(c)
 }
 
-var c02WrappersHook = func(c *Ctx) { c.Run.Note("R4 (wrappers) is provided by the flow engine") }
+
 
 func c02One(c *Ctx, uplink bool, ver int64, v avariant) {
 	r := c.Run
